@@ -77,6 +77,10 @@ pub fn compound_programs(thorough: bool) -> Vec<String> {
         "local t2 = {t = t}\nt2.t.k += 1\nt2[\"t\"][\"k\"] += 1\nreturn t.k",
         "local function g2() E1(\"g\") return t end\ng2().k += 1\ng2()[EI(\"k\")] *= 2\nreturn t.k",
         "t[EI(1)] += EI(2)\nreturn t[1]",
+        // the key expression rebinds the global that the prefix names (for a local prefix Luau itself reads the
+        // variable after the key, so only the global case distinguishes the orders)
+        "g = {k = 1}\nlocal old = g\ng[(function() g = {k = 50} return \"k\" end)()] += 1\nreturn old.k, g.k",
+        "g = {a = {k = 1}}\nlocal old = g.a\ng.a[(function() g = {a = {k = 50}} return \"k\" end)()] += 1\nreturn old.k, g.a.k",
         "local k = \"k\"\nt[k] += 1\nk = \"z\"\nreturn t.k",
         "local t3 = setmetatable({}, {__index = function(_, k) E1(\"idx\", k) return 5 end, __newindex = function(s, k, v) E1(\"new\", k, v) rawset(s, k, v) end})\nt3.a += 1\nt3.a += 1\nreturn t3.a",
     ] {
